@@ -20,8 +20,8 @@ mutual
         exact List.Sublist.refl _
       · rw [if_neg hh] at e
         rw [handles_node]
-        exact (findList?_sublist ks u e).cons h'
-  theorem findList?_sublist {h : Nat} : ∀ (ks : List HTree) (u : HTree), findList? h ks = some u →
+        exact (fs_findList?_sublist ks u e).cons h'
+  theorem fs_findList?_sublist {h : Nat} : ∀ (ks : List HTree) (u : HTree), findList? h ks = some u →
       (handles u).Sublist (handlesList ks)
     | [], u => by intro e; rw [findList?_nil] at e; cases e
     | k :: ks, u => by
@@ -35,7 +35,7 @@ mutual
         exact (find?_sublist k t hk).trans (List.sublist_append_left _ _)
       | none =>
         rw [findList?_cons_none hk] at e
-        exact (findList?_sublist ks u e).trans (List.sublist_append_right _ _)
+        exact (fs_findList?_sublist ks u e).trans (List.sublist_append_right _ _)
 end
 
 /-- A child of `p` is not the root of the tree in which `p` was found. -/
@@ -163,7 +163,7 @@ theorem not_root_of_top {p h : Nat} {v : Value} {L : List HTree} : ∀ rs : List
 theorem findList?_kid {p : Nat} {v : Value} {l : List HTree} {s : HTree} {r : List HTree} (rs : List HTree)
     (nd : (handlesList rs).Nodup) (e : findList? p rs = some (.node p v (l ++ s :: r))) :
     findList? s.handle rs = some s := by
-  have hsub := findList?_sublist rs _ e
+  have hsub := fs_findList?_sublist rs _ e
   have ndu : (handles (HTree.node p v (l ++ s :: r))).Nodup := hsub.nodup nd
   obtain ⟨u1, u2⟩ := nodup_handles_node ndu
   have hin : s.handle ∈ handlesList (l ++ s :: r) := handle_mem_handlesList (List.mem_append_right _ List.mem_cons_self)
